@@ -86,6 +86,9 @@ impl<'a> Fold<TextRange> for Check<'a> {
 
 fuzz_target!(|data: &[u8]| {
     let Some(inp) = common::decode(data) else { return };
+    if common::too_deep(&inp.text) {
+        return;
+    }
     let Ok(m) = parse_starts_at(&inp.text, inp.mode, "<fuzz>", TextSize::from(inp.offset)) else { return };
     let mut c = Check { src: &inp.text, k: inp.offset, open: Vec::new(), next_is_decorated: false, in_fstring: 0, crlf: inp.text.contains("\r\n") };
     let _ = c.fold_mod(m).unwrap();
